@@ -307,8 +307,14 @@ func ruleTxConfinement(c *Ctx, r *Report, rule string) {
 				nm := calleeName(x.Common())
 				if nm == "database/sql.Tx.Commit" || nm == "database/sql.Tx.Rollback" || nm == "database/sql.DB.BeginTx" || nm == "database/sql.DB.Begin" {
 					n++
+					top := f
+					for top.Parent() != nil {
+						top = top.Parent()
+					}
 					if f == c.Sync {
 						r.ok(rule, fmt.Sprintf("%s calls %s", fname(f), nm), c.ipos(ins), "transaction control in the sync root")
+					} else if top == c.Sync && closureStaysLocal(f) {
+						r.ok(rule, fmt.Sprintf("%s calls %s", fname(f), nm), c.ipos(ins), "transaction control in a closure of the sync root that is only called there (its use is judged by the typestate rule)")
 					} else if c.onlyCalledFromFamily(f, c.Sync) {
 						r.ok(rule, fmt.Sprintf("%s calls %s", fname(f), nm), c.ipos(ins), "transaction control in a helper that only the sync root calls (its use is judged by the typestate rule)")
 					} else {
@@ -436,4 +442,26 @@ func onlyCapturedByLocalClosures(a *ssa.Alloc) bool {
 		}
 	}
 	return true
+}
+
+// closureStaysLocal: the closure f is made in its parent and only called (or deferred) there - it is not stored in a
+// field, returned, sent, started as a goroutine or handed to another function.
+func closureStaysLocal(f *ssa.Function) bool {
+	p := f.Parent()
+	if p == nil {
+		return false
+	}
+	ok := true
+	found := false
+	allInstrs(p, func(ins ssa.Instruction) {
+		mc, isMC := ins.(*ssa.MakeClosure)
+		if !isMC || mc.Fn != ssa.Value(f) {
+			return
+		}
+		found = true
+		if why := closureEscapes(mc); why != "" {
+			ok = false
+		}
+	})
+	return found && ok
 }
